@@ -6,7 +6,6 @@ package cpusuppress
 
 import (
 	"fmt"
-	"hash/fnv"
 	"path/filepath"
 
 	corev1 "k8s.io/api/core/v1"
@@ -311,15 +310,23 @@ func c10NewSetAlpha(l *c10Layout, thorough bool, npods int) *c10SetAlpha {
 	return a
 }
 
-func (a *c10SetAlpha) decode(i int64) (*c10SetCase, []*statesinformer.PodMeta) {
+// decode returns case i; canonical is false when the same case also exists with its pods moved to the front (an absent
+// slot before a present one): later slots' alphabets are subsets of earlier ones, so counting only canonical tuples
+// counts distinct inputs exactly.
+func (a *c10SetAlpha) decode(i int64) (c *c10SetCase, pods []*statesinformer.PodMeta, canonical bool) {
 	d := a.rx.Decode(i, make([]int, 0, 10))
 	np := len(a.podAlpha)
-	c := &c10SetCase{Layout: a.l.Name}
-	var pods []*statesinformer.PodMeta
+	c = &c10SetCase{Layout: a.l.Name}
+	canonical = true
+	gap := false
 	for k := 0; k < np; k++ {
 		p := a.podAlpha[k][d[k]]
 		if p.CPUSet == "" {
+			gap = true
 			continue
+		}
+		if gap {
+			canonical = false
 		}
 		c.Pods = append(c.Pods, p)
 		pods = append(pods, a.podObjs[k][d[k]])
@@ -328,13 +335,12 @@ func (a *c10SetAlpha) decode(i int64) (*c10SetCase, []*statesinformer.PodMeta) {
 	c.Topo = c10TopoCfg{Reserved: a.reserved[d[np]], Sys: so.ids, SysNonExcl: so.nonExcl, SysMalformed: so.malformed, Static: d[np+4] == 1}
 	c.Old = a.olds[d[np+2]]
 	c.BudgetMilli = a.budgets[d[np+3]]
-	return c, pods
+	return c, pods, canonical
 }
 
 func c10RunCPUSetPart(env *mc.Env, tree *c10Tree, layouts []*c10Layout, npods int) {
 	res := mc.NewResult("C10", "cpuset", "enumeration")
 	res.Exhaustive = true
-	ds := mc.NewDistinctSet()
 	var total int64
 	var alphas []*c10SetAlpha
 	for _, l := range layouts {
@@ -349,16 +355,14 @@ func c10RunCPUSetPart(env *mc.Env, tree *c10Tree, layouts []*c10Layout, npods in
 		a := a
 		l := a.l
 		done, complete := env.ParallelRangeL(res, a.rx.Size(), func(lc *mc.Local, i int64) {
-			c, pods := a.decode(i)
+			c, pods, canonical := a.decode(i)
 			lc.Evals++
 			o := c10RunSet(l, c, pods)
 			for _, v := range c10JudgeSetCase(tree, l, c, o, lc.Count) {
 				res.Violate(v)
 			}
-			if len(o.Final) > 0 {
-				h := fnv.New64a()
-				fmt.Fprint(h, l.Name, c.Pods, c.Topo, c.Old, c.BudgetMilli, o.Final[tree.ctrFile], o.Final[tree.rootFile])
-				ds.AddHash(h.Sum64())
+			if len(o.Final) > 0 && canonical {
+				lc.Count("distinct_nontrivial_cases", 1)
 			}
 			if i%400009 == 7 {
 				res.Sample(fmt.Sprintf("%+v -> containers:%q root:%q", *c, o.Final[tree.ctrFile], o.Final[tree.rootFile]))
@@ -371,11 +375,11 @@ func c10RunCPUSetPart(env *mc.Env, tree *c10Tree, layouts []*c10Layout, npods in
 		}
 	}
 	res.Traces = res.Evaluations
-	res.Distinct = ds.Len()
+	res.Distinct = res.Counters["distinct_nontrivial_cases"]
 	res.Rule = fmt.Sprintf("every member of: %d processor layouts (sockets{1,2} x NUMA/socket{1,2} x cores/NUMA{1,2,4} x HT{1,2}, adjacent and split sibling numbering; quick: split only up to 4 CPUs) x ordered tuples of %d pods "+
 		"(absent | QoS{LSE,LSR,LS,BE} x cpuset annotation{core 0, NUMA node 0, all CPUs, last CPU} | malformed annotation; quick: 2nd pod LSE/LSR only; thorough: 3rd pod in {absent, LSE core 0, LSE last CPU, LSR NUMA 0, LS all}) x reservedCPUs{none,{0,1},all (+{0} thorough)} x "+
 		"system-QoS cpuset{none,{0,1},upper half,all; {0,1} non-exclusive (+{0}, malformed thorough)} x current BE cpuset{all,{0,1},empty (+{0} thorough)} x budget milli{-1500,1,2001,3000,N/2+0.001,N,N+1 CPUs (+0,2000 thorough)} x kubelet policy{none,static}; "+
-		"non-trivial = a cpuset was written; distinct = distinct (case, written sets) among those", len(alphas), npods)
+		"non-trivial = a cpuset was written; distinct = distinct inputs among those (pod tuples that differ only by the position of absent slots are counted once)", len(alphas), npods)
 	res.Bounds = map[string]any{"layouts": len(alphas), "max_cpus": c10MaxN(layouts), "pods": npods, "cases": total}
 	res.Assumptions = []string{
 		"the transient union (old + new cpuset) that applyCPUSetWithNonePolicy writes top-down before the real set is outside the property; the LAST value written per cgroup is judged",
